@@ -9,6 +9,7 @@ import (
 	"fmt"
 	"runtime/debug"
 	"sort"
+	"strconv"
 	"strings"
 
 	"github.com/apache/arrow-go/v18/arrow"
@@ -84,6 +85,15 @@ func (o Options) Build() []config.Option {
 		opts = append(opts, config.WithUint32LimitDictIndex())
 	case "u64":
 		opts = append(opts, config.WithUint64LimitDictIndex())
+	default:
+		// "custom:<n>": a caller-written config.Option that sets the exported
+		// Config.LimitIndexSize field to a value that is not an index-type
+		// capacity (only used where the property says "arbitrary options": C16)
+		if strings.HasPrefix(o.Dict, "custom:") {
+			if n, err := strconv.ParseUint(strings.TrimPrefix(o.Dict, "custom:"), 10, 64); err == nil {
+				opts = append(opts, func(c *config.Config) { c.LimitIndexSize = n })
+			}
+		}
 	}
 	if o.ResetThreshold != nil {
 		opts = append(opts, config.WithDictResetThreshold(*o.ResetThreshold))
